@@ -154,6 +154,26 @@ fn build_section_any(
 fn bz2(data: &[u8]) -> Vec<u8> {
     use std::io::Write;
     use std::process::{Command, Stdio};
+    // (the same payload is compressed again for every mutation of one base: remember the last few)
+    thread_local! { static CACHE: std::cell::RefCell<Vec<(u64, Vec<u8>)>> = const { std::cell::RefCell::new(Vec::new()) }; }
+    let h = hash_of(&data);
+    if let Some(v) = CACHE.with(|c| c.borrow().iter().find(|(k, _)| *k == h).map(|(_, v)| v.clone())) {
+        return v;
+    }
+    let out = bz2_uncached(data);
+    CACHE.with(|c| {
+        let mut c = c.borrow_mut();
+        if c.len() >= 16 {
+            c.remove(0);
+        }
+        c.push((h, out.clone()));
+    });
+    return out;
+}
+
+fn bz2_uncached(data: &[u8]) -> Vec<u8> {
+    use std::io::Write;
+    use std::process::{Command, Stdio};
     let mut c = Command::new("python3")
         .args(["-c", "import sys,bz2;sys.stdout.buffer.write(bz2.compress(sys.stdin.buffer.read()))"])
         .stdin(Stdio::piped())
@@ -251,17 +271,20 @@ pub fn split(
                 }
                 "lit" => {
                     lit_no += 1;
-                    d.extend(it["b"].as_array().unwrap().iter().map(|x| x.as_u64().unwrap() as u8))
+                    let b: Vec<u8> = it["b"].as_array().unwrap().iter().map(|x| x.as_u64().unwrap() as u8).collect();
+                    d.extend(crate::layout::visit_item(rng, it, b));
                 }
                 "chunk" => d.extend(ch),
                 "f" => {
-                    match it["f"].as_str().unwrap() {
-                        "id" => d.extend(id.to_le_bytes()),
-                        "size" => d.extend(1248u16.to_le_bytes()),
-                        "dsize" => d.extend(dsize.to_le_bytes()),
-                        "crc" => d.extend(crc.to_le_bytes()),
+                    // (the framing fields take part in the item-level mutations of the hostile catalogue)
+                    let b: Vec<u8> = match it["f"].as_str().unwrap() {
+                        "id" => id.to_le_bytes().to_vec(),
+                        "size" => 1248u16.to_le_bytes().to_vec(),
+                        "dsize" => dsize.to_le_bytes().to_vec(),
+                        "crc" => crc.to_le_bytes().to_vec(),
                         f => panic!("frag field {f}"),
-                    }
+                    };
+                    d.extend(crate::layout::visit_item(rng, it, b));
                 }
                 k => panic!("frag item {k}"),
             }
